@@ -127,6 +127,7 @@ func runProp(id, tier, repo, vdir string, seed int, progs map[bool]*Prog) (code 
 			}
 			progs[cgo] = p
 		}
+		activeProg = p
 		r.Count("packages"+cfgName, len(p.Pkgs))
 		r.Count("source functions"+cfgName, len(p.byKey))
 		chk.Run(&Ctx{P: p, R: r, Thorough: thorough, Cfg: cfgName})
@@ -165,6 +166,7 @@ func doReplay(path, repo, vdir string) int {
 		fmt.Println(err)
 		return 2
 	}
+	activeProg = p
 	r := newReport(rp.Property, "quick")
 	func() {
 		defer func() {
